@@ -132,7 +132,11 @@ fn run_scenario(sc: &Value) -> Value {
                 }
                 git(&rd, &["add", "-A"]);
                 git(&rd, &["commit", "-q", "--allow-empty", "-m", op["tag"].as_str().unwrap()]);
-                let h = git(&rd, &["rev-parse", "HEAD"]);
+                // HEAD -> refs/heads/main: read the ref instead of spawning `git rev-parse`
+                let h = match fs::read_to_string(rd.join(".git/refs/heads/main")) {
+                    Ok(x) if x.trim().len() == 40 => x.trim().to_string(),
+                    _ => git(&rd, &["rev-parse", "HEAD"]),
+                };
                 let tag = op["tag"].as_str().unwrap().to_string();
                 revs.insert(h.clone(), tag.clone());
                 tags.insert(tag, h.clone());
